@@ -36,7 +36,7 @@ try:
     _envtxt = meta.get("demo_env", "") or ""
     for _m in re.finditer(r"\b([A-Z][A-Z0-9_]+)=((?:[a-z0-9_.]+=[a-z0-9]+,?)+|[^\s;,)]+)", _envtxt):
         # "must run without GODEBUG=...", "do NOT set GODEBUG=..." name a setting that is NOT part of the demonstration
-        if re.search(r"\b(without|not|no|never|unset|disappears with|passes with)\b[^=]{0,40}$", _envtxt[max(0, _m.start() - 60):_m.start()], re.I):
+        if re.search(r"\b(without|not|no|never|unset|disappears with|passes with)\b[^=]{0,70}$", _envtxt[max(0, _m.start() - 90):_m.start()], re.I):
             continue
         kv = (_m.group(1), _m.group(2).rstrip(",."))
         if kv[0] not in ("GOFLAGS", "GOPROXY", "GOSUMDB", "GOTOOLCHAIN") and kv[0] not in seen_env:
